@@ -132,6 +132,10 @@ type forkSpec struct {
 	drift        time.Duration
 	round        int32
 	salt         string
+	// nilRest: every member of a forged block's validator set that is not a signer contributes a GENUINE precommit
+	// for nil (same height and round, correct sign bytes, nil flag, right address and index) instead of being absent -
+	// what a forger can harvest from a round of that height that did not decide. Such slots must never count.
+	nilRest bool
 }
 
 // genCoalition draws a subset of the members of vs whose share of the power falls into a drawn class relative to the
@@ -219,6 +223,12 @@ func (w *world) genFork(t *rapid.T, label string, j, m int64, refVals *types.Val
 		powers = append(powers, sum*rapid.Int64Range(1, 3).Draw(t, label+".wp")/2+1)
 	}
 	fs.fv = lib.NewValSet(keys, powers)
+	switch class {
+	case "none", "low", "below-level":
+		fs.nilRest = rapid.IntRange(0, 1).Draw(t, label+".nilRest") == 0
+	default:
+		fs.nilRest = rapid.IntRange(0, 3).Draw(t, label+".nilRest") == 0
+	}
 	fs.timeMode = rapid.SampledFrom([]string{"genuine", "genuine", "genuine", "genuine", "genuine", "equal", "before", "future"}).Draw(t, label+".time")
 	fs.round = int32(rapid.SampledFrom([]int{0, 0, 1}).Draw(t, label+".round"))
 	return fs
@@ -267,7 +277,15 @@ func (w *world) build(fs forkSpec, base func(int64) *types.LightBlock) map[int64
 		} else if prev != nil && !h.Time.After(prev.Time) {
 			h.Time = prev.Time.Add(time.Second)
 		}
-		lb := lib.ForgeLightBlock(w.chainID, h, vals, false, fs.round, signers, nil)
+		var nilSigners []int
+		if fs.nilRest {
+			for _, v := range vals.Validators {
+				if k := lib.KeyIndex(v.Address); k >= 0 && !containsInt(signers, k) {
+					nilSigners = append(nilSigners, k)
+				}
+			}
+		}
+		lb := lib.ForgeLightBlock(w.chainID, h, vals, false, fs.round, signers, nilSigners)
 		out[x] = lb
 		prev = lb
 	}
